@@ -131,13 +131,13 @@ def run_c07(ctx):
 def run_c08(ctx):
     thorough = ctx.tier == "thorough"
     fams = fam(ctx, ["gen_operators", "gen_positions", "gen_pipelines", "gen_statements"],
-               dict(corrupt_fams(thorough), **{"gen_groups": {}}))
+               dict(corrupt_fams(thorough), **{"gen_groups": {}, "gen_stmtseq": {}}))
     return prog_like(ctx, "C08", fams, deep=False, trace=True, soups=400000 if thorough else 30000, layouts=2)
 
 
 def run_c12(ctx):
     thorough = ctx.tier == "thorough"
-    extra = {"gen_stress": {"Bound": 2000 if thorough else 500}, "ParseCheck/parse_stress": {"Bound": 1}, "gen_plant": {}, "gen_groups": {}}
+    extra = {"gen_stress": {"Bound": 2000 if thorough else 500}, "ParseCheck/parse_stress": {"Bound": 1}, "gen_plant": {}, "gen_groups": {}, "gen_stmtseq": {}}
     extra.update(corrupt_fams(thorough) if thorough else {"ParseCheck/parse_corrupt:operators": {"BaseFamily": '"operators"', "EditMenu": 4}})
     fams = fam(ctx, list(GEN_FAMILIES), extra)
     return prog_like(ctx, "C12", fams, deep=True, soups=500000 if thorough else 40000, layouts=3 if not thorough else 4)
